@@ -135,7 +135,107 @@ fn run_child(
     Some(String::from_utf8_lossy(&out.stdout).trim_end().to_string())
 }
 
+/// (D) a group under `optional`/`many`/... given only in part: its other required member is
+/// absent from the line and so is its variable - the run fails naming that member or its variable
+/// (and succeeds once the variable is set)
+fn half_given_group(case: &mut Case) {
+    let mut rng = case.rng(2);
+    let var = format!("BPAF_VERIF_HALF_{}", case.index % 89);
+    let env_only = rng.chance(2, 3);
+    let a = Item {
+        id: 1,
+        names: Names::long("alpha"),
+        help: None,
+        leaf: Leaf::Arg {
+            ty: Ty::U32,
+            metavar: "A".into(),
+            adjacent: false,
+        },
+    };
+    let mut bn = if env_only {
+        Names::default()
+    } else {
+        Names::long("beta")
+    };
+    bn.envs = vec![var.clone()];
+    let flag = rng.chance(1, 3);
+    let bi = Item {
+        id: 2,
+        names: bn,
+        help: None,
+        leaf: if flag {
+            Leaf::ReqFlag
+        } else {
+            Leaf::Arg {
+                ty: Ty::U32,
+                metavar: "B".into(),
+                adjacent: false,
+            }
+        },
+    };
+    let members = if rng.chance(1, 2) {
+        vec![Spec::Item(a), Spec::Item(bi)]
+    } else {
+        vec![Spec::Item(bi), Spec::Item(a)]
+    };
+    let (w, wname) = match rng.below(5) {
+        0 => (W::Optional { catch: false }, "optional"),
+        1 => (W::Many { catch: false }, "many"),
+        2 => (W::Some_ { catch: false }, "some"),
+        3 => (W::Collect { catch: false }, "collect"),
+        _ => (W::Last, "last"),
+    };
+    let root = Spec::Seq(vec![
+        Spec::wrap(w, 3, Spec::Seq(members)),
+        Spec::Item(Item {
+            id: 5,
+            names: Names::long("gamma"),
+            help: None,
+            leaf: Leaf::Switch,
+        }),
+    ]);
+    let b = Bench::new(case, OptSpec::plain(root));
+    let named = RunOpts {
+        name: Some("harnesschild".to_string()),
+        ..RunOpts::default()
+    };
+    let argv = vec![b"--alpha".to_vec(), b"7".to_vec()];
+    std::env::remove_var(&var);
+    let class = format!("half-given-group:{}:{}", wname, if env_only { "variable-only" } else { "named" });
+    let (out, _) = b.run_opts(case, &argv, &class, &named, 22);
+    match &out {
+        Outcome::Stderr { text } if text.contains(var.as_str()) || text.contains("--beta") => {}
+        Outcome::Panic(_) | Outcome::FuelExhausted => {}
+        other => case.rep.violation(
+            &format!("half-given-group:{}", other.class()),
+            "both-absent",
+            case.index,
+            b.detail(
+                &argv,
+                &class,
+                &format!("Stderr naming --beta or {}", var),
+                other,
+            ),
+        ),
+    }
+    std::env::set_var(&var, "12");
+    let (out, _) = b.run_opts(case, &argv, "half-given-group:variable-set", &named, 23);
+    if !matches!(out, Outcome::Value(_) | Outcome::Panic(_) | Outcome::FuelExhausted) {
+        case.rep.violation(
+            &format!("half-given-group-with-variable:{}", out.class()),
+            "fallback",
+            case.index,
+            b.detail(&argv, "half-given-group:variable-set", "a value", &out),
+        );
+    }
+    std::env::remove_var(&var);
+}
+
 pub fn run_case(case: &mut Case) {
+    if case.index % 8 == 5 {
+        half_given_group(case);
+        return;
+    }
     let mut rng = case.rng(0);
     let spec = gen_spec(&mut rng);
     // from here on a separate stream, the child regenerates the spec from stream 0 only
